@@ -71,10 +71,15 @@ func VerifHarness_C08_step() {
 	switch verifConc(ndInt("event", 0, 9)) {
 	case 0:
 		verifCase("connect")
-		verifAssume(!wasConnected)
-		r.out = make(chan []byte, 24)
-		out0 = r.out
-		r.s.onAdmin(connect{messageOut: r.out})
+		if wasConnected {
+			// a second connection for a session that still has one: refused, the first one is not touched
+			verifCase("while-connected")
+			r.s.onAdmin(connect{messageOut: make(chan []byte, 24)})
+		} else {
+			r.out = make(chan []byte, 24)
+			out0 = r.out
+			r.s.onAdmin(connect{messageOut: r.out})
+		}
 	case 1:
 		verifCase("inbound")
 		var m *Message
